@@ -1111,13 +1111,28 @@ func (a *Agent) addRemotePassiveTCPCandidate(remoteCandidate Candidate) {
 			continue
 		}
 
+		// Same rules as gatherCandidatesLocal: when gathering with mDNS the candidate exposes
+		// the mDNS name instead of the interface address; otherwise an IPv6 link-local address
+		// is still used for connectivity checks but never handed to the application.
+		address := localIPs[i].addr.String()
+		var isLocationTracked bool
+		if a.mDNSMode == MulticastDNSModeQueryAndGather {
+			address = a.mDNSName
+		} else {
+			isLocationTracked = shouldFilterLocationTrackedIP(localIPs[i].addr)
+		}
+
 		localCandidate, err := NewCandidateHost(&CandidateHostConfig{
-			Network:   remoteCandidate.NetworkType().String(),
-			Address:   localIPs[i].addr.String(),
-			Port:      tcpAddr.Port,
-			Component: ComponentRTP,
-			TCPType:   TCPTypeActive,
+			Network:           remoteCandidate.NetworkType().String(),
+			Address:           address,
+			Port:              tcpAddr.Port,
+			Component:         ComponentRTP,
+			TCPType:           TCPTypeActive,
+			IsLocationTracked: isLocationTracked,
 		})
+		if err == nil && a.mDNSMode == MulticastDNSModeQueryAndGather {
+			err = localCandidate.setIPAddr(localIPs[i].addr)
+		}
 		if err != nil {
 			closeConnAndLog(conn, a.log, "Failed to create Active ICE-TCP Candidate: %v", err)
 
@@ -1129,7 +1144,9 @@ func (a *Agent) addRemotePassiveTCPCandidate(remoteCandidate Candidate) {
 			a.localCandidates[localCandidate.NetworkType()],
 			localCandidate,
 		)
-		a.candidateNotifier.EnqueueCandidate(localCandidate)
+		if !localCandidate.filterForLocationTracking() {
+			a.candidateNotifier.EnqueueCandidate(localCandidate)
+		}
 
 		a.addPair(localCandidate, remoteCandidate)
 	}
